@@ -288,6 +288,8 @@ def check(run):
         crules.order_rules(run, r4, None, ast)
         crules.cells_rules(run, r5, None, None, ast)
         crules.model_rules(run, r5, ast, parts=("dummies",))
+        run.rule("C02-registered", "every definition handed to add_function takes part in resolution: a definition not yet registered is always pushed into the method's catalog", floor=3)
+        crules.idem_rules(run, "C02-registered", ast)
         run.rule("C02-best", "best(): an incomparable member is never removed (so that ambiguity is detected)", floor=3)
         crules.best_rules(run, "C02-best", ast)
     must = ["yorel::yomm2::method<>::not_implemented_handler", "yorel::yomm2::method<>::ambiguous_handler",
